@@ -36,6 +36,7 @@ LEVEL = "exploration"
 TECHNIQUE = ("deterministic simulation: seeded expression grammar with boundary values sent between two real Banana "
              "instances (dialect negotiated over the link) under seeded segmentation, plus hand-built over-limit elements")
 QUICK_RUNS = 50000
+TWIN_P = 0.08   # this share of the runs drives two independent instances of the scenario one after the other (detsim.runner._run_scenario)
 BATCH = 100
 COMPONENTS = {
     "real": ["twisted.spread.banana.Banana (connectionMade negotiation, sendEncoded/_encode, dataReceived, setPrefixLimit)",
